@@ -182,9 +182,14 @@ def build_arg(node, env):
     return build_expr(node, env)
 
 
+EXTRA_NODES: dict = {}  # node kind -> callable(node, env); lets a property plug in harness-defined terms
+
+
 def build_expr(node, env):
     P, analytics, functions, terms, queries, enums, pseudo = lib()
     k = node[0]
+    if k in EXTRA_NODES:
+        return EXTRA_NODES[k](node, env)
     A = lambda n: build_arg(n, env)  # noqa: E731
     if k == "col":
         table = env.src(node[1]) if node[1] is not None else None
@@ -312,6 +317,11 @@ def build_expr(node, env):
         if k == "joinusing":
             return queries.JoinUsing(A(node[1]), how, [P.Field(n) for n in node[3]])
         return queries.Join(A(node[1]), enums.JoinType.cross)
+    if k == "schemaobj":
+        r = build_schema(node[1])
+        return P.Schema(r) if isinstance(r, str) else r
+    if k == "aliasedq":
+        return P.AliasedQuery(node[1], build_program(node[2], parent=env) if len(node) > 2 and node[2] is not None else None)
     if k == "replace_table":
         return A(node[1]).replace_table(A(node[2]) if node[2] is not None else None, A(node[3]) if node[3] is not None else None)
     raise HarnessError("unknown expression node %r" % (k,))
